@@ -5,7 +5,7 @@ Program (JSON-able):
           "body": [stmt...], "vars": {"v0": init, ...}, "nmark": int}
   stmt = ["sig", port, expr] | ["var", name, expr] | ["mark", k] | ["await", cond] | ["tick"] | ["halt"]
        | ["if", cond, then, else|None] | ["while", cond|"TRUE"|"FALSE", body] | ["break"] | ["continue"]
-       | ["return"] | ["call", subname] | ["decl", name, init]
+       | ["return"] | ["call", subname] | ["decl", name, init] | ["push", expr]   (self.ps ^= expr; ps has default 5)
   expr = ["k", n] | ["in", "d"] | ["v", name] | ["addk", expr, n] | ["add", expr, expr] | ["port", "q"]
   cond = ["in", "a"|"b"|"c"] | ["not", cond] | ["and", cond, cond] | ["or", cond, cond]
        | ["eqk", expr, n] | ["ltk", expr, n]
@@ -32,6 +32,7 @@ class Gen:
         self.targets = ["q", "r"]
         self.reset_kind = None
         self.on_reset = False
+        self.push = False
 
     # ---- expressions -------------------------------------------------------------------------
     def expr(self, depth=0):
@@ -80,6 +81,8 @@ class Gen:
 
     def simple(self):
         rs = self.rs
+        if self.push and rs.below(5) == 0:
+            return ["push", self.expr()]
         c = rs.below(6)
         if c < 2:
             return self.mark()
@@ -180,6 +183,7 @@ class Gen:
             "body": body,
             "vars": {v: rs.below(16) for v in self.vars},
             "nmark": self.nmark,
+            "push": self.push,
         }
 
 
@@ -257,6 +261,8 @@ def r_block(stmts, ind, out):
             out.append(f"{pad}self.{s[1]} <<= {r_expr(e)}")
         elif k == "var":
             out.append(f"{pad}{s[1]} @= {r_expr(s[2])}")
+        elif k == "push":
+            out.append(f"{pad}self.ps ^= {r_expr(s[1])}")
         elif k == "mark":
             out.append(f"{pad}self.marker <<= {s[1]}")
             out.append(f"{pad}accv @= accv + 1")
@@ -331,6 +337,8 @@ def render(prog, attrs=None):
         f"    q = Port.output(Unsigned[{W}], default=0)",
         f"    r = Port.output(Unsigned[{W}], default=0)",
     ]
+    if prog.get("push"):
+        L.append(f"    ps = Port.output(Unsigned[{W}], default=5)")
     rst = prog.get("reset") or {}
     if rst.get("extra_ports"):
         L += [f"    nd = Port.output(Unsigned[{W}])", f"    nr = Port.output(Unsigned[{W}], default=3, noreset=True)"]
@@ -399,4 +407,4 @@ def shape(prog):
                 out.append(s[0])
         return tuple(out)
 
-    return (sh(prog["body"]), tuple(sh(s["body"]) for s in prog["subs"]), prog["edge"], prog["step_cond"], bool(prog.get("reset")))
+    return (sh(prog["body"]), tuple(sh(s["body"]) for s in prog["subs"]), prog["edge"], prog["step_cond"], bool(prog.get("reset")), bool(prog.get("push")))
